@@ -94,19 +94,22 @@ theorem C16_incdec_return (sem : PlainSem) (dec post : Bool) (a : Operand) (old 
     obtain ⟨rfl, rfl⟩ := h
     exact ⟨⟨v, rfl⟩, rfl⟩
 
+/-- same elements, any order (the order in which the macros are instantiated is irrelevant) -/
+def sameElems {α : Type} [DecidableEq α] (a b : List α) : Bool :=
+  a.length == b.length && a.all (· ∈ b) && b.all (· ∈ a)
+
 /-- The operator tables of the source (regenerated from rlbox.hpp on every run): each macro is
 instantiated with exactly these symbols, `PostIncDecOps` calls the pre-form of its own symbol,
 `PreIncDecOps` steps by 1 through its own symbol, compound assignment goes through its own symbol. -/
 theorem ops_tables_match :
-    Generated.binaryOpValAndPtr = [BinSym.add.sym, BinSym.sub.sym] ∧
-    Generated.binaryOp = [BinSym.mul, .div, .mod, .xor, .band, .bor, .shl, .shr].map BinSym.sym ∧
-    Generated.compoundAssignmentOp = [BinSym.add, .sub, .mul, .div, .mod, .xor, .band, .bor, .shl, .shr].map BinSym.sym ∧
-    Generated.compareOp.map (·.1) = [CmpSym.eq, .ne, .lt, .le, .gt, .ge].map CmpSym.sym ∧
-    Generated.compareOp.map (·.2) = [true, true, false, false, false, false] ∧
-    Generated.unaryOp = ["-", "~"] ∧
-    Generated.preIncDecOps = ["+", "-"] ∧ Generated.postIncDecOps = ["+", "-"] ∧
-    Generated.binaryOpWrappedRhs = ([BinSym.add, .sub, .mul, .div, .mod, .xor, .band, .bor, .shl, .shr].map BinSym.sym) ++
-                                   ([CmpSym.eq, .ne, .lt, .le, .gt, .ge].map CmpSym.sym) ∧
+    sameElems Generated.binaryOpValAndPtr [BinSym.add.sym, BinSym.sub.sym] = true ∧
+    sameElems Generated.binaryOp ([BinSym.mul, .div, .mod, .xor, .band, .bor, .shl, .shr].map BinSym.sym) = true ∧
+    sameElems Generated.compoundAssignmentOp ([BinSym.add, .sub, .mul, .div, .mod, .xor, .band, .bor, .shl, .shr].map BinSym.sym) = true ∧
+    sameElems Generated.compareOp (([CmpSym.eq, .ne].map fun c => (c.sym, true)) ++ ([CmpSym.lt, .le, .gt, .ge].map fun c => (c.sym, false))) = true ∧
+    sameElems Generated.unaryOp ["-", "~"] = true ∧
+    sameElems Generated.preIncDecOps ["+", "-"] = true ∧ sameElems Generated.postIncDecOps ["+", "-"] = true ∧
+    sameElems Generated.binaryOpWrappedRhs (([BinSym.add, .sub, .mul, .div, .mod, .xor, .band, .bor, .shl, .shr].map BinSym.sym) ++
+                                   ([CmpSym.eq, .ne, .lt, .le, .gt, .ge].map CmpSym.sym)) = true ∧
     Generated.postIncDecCalls = "opSymbol##opSymbol" ∧ Generated.preIncDecStep = ("opSymbol", 1) ∧
     Generated.compoundBody = "opSymbol" := by decide
 
